@@ -139,6 +139,14 @@ CHECKS = {
         "Component status trackers stubbed to 'all working'; virtual clock (async_solipsism); tolerance 1e-6.",
         "DESIGN.md section 3 C15",
     ),
+    "C16": (
+        "Hypothesis model-based testing over message/silence/result histories on a virtual clock: notification stream vs a reference status machine + a one-directional safety invariant on the raw trace",
+        "Histories of healthy / singly-faulty / stale battery and inverter messages, silences around the 10 s data-age limit and "
+        "command outcomes drive a real BatteryStatusTracker on the fake API; the notification sequence must equal the reference "
+        "machine's, and WORKING/UNCERTAIN may never stand while a disqualifying fact holds. Exploration level.",
+        "Message timestamps are fresh or older than the maximum age (no lags inside (0, max age)); timers elapse exactly (virtual time).",
+        "DESIGN.md section 3 C16",
+    ),
     "C17": (
         "Hypothesis PBT, differential: advertised SystemBounds (PowerBoundsCalculator) vs admission by a real BatteryManager for probes on/around every advertised bound",
         "For generated topologies with shared inverters/batteries and exact (half-integer) bounds, every admitted probe power is "
